@@ -56,6 +56,7 @@ def run(rep, idx, tier):
     P = Pol(idx)
     port_polarity(rep, idx, P)
     drivers(rep, idx, P)
+    plain_member_directions(rep, idx, "C20.2")
     connects(rep, idx, P)
     for spec, (ispec, table) in SIG_SPECS.items():
         sig = idx.find_class(spec)
@@ -174,6 +175,42 @@ def drivers(rep, idx, P):
                       f"port polarity {sign(pol)}{sigcls.qual}, member declared {sm[0][0]}: under that orientation `{member}` is an input of "
                       "this component, yet the component drives it")
     rep.count("port_member_drivers", nd)
+
+
+def plain_member_directions(rep, idx, rule):
+    """A plain member (a signal, not an interface) that the component's own elaborate() drives is an output of the component and
+    must be declared Out: an In member is driven from outside as well -- as the top-level design its conversion fails with an
+    internal DriverConflict, and connect() treats it as an input of the component."""
+    n = 0
+    for f in idx.all_functions():
+        if f.name != "elaborate" or f.cls is None:
+            continue
+        cls = f.cls
+        mem = idx.members(cls)
+        if not mem:
+            continue
+        c = get_ctx(idx, f)
+        seen = set()
+        for d in c.t.drivers:
+            base = c.norm(d.target)
+            while base[0] == 'sub' or (base[0] == 'call' and base[1][0] == 'attr' and base[1][2] in ('word_select', 'bit_select')):
+                base = base[1] if base[0] == 'sub' else base[1][1]
+            if not (base[0] == 'attr' and base[1] == ('name', 'self') and base[2] in mem) or base[2] in seen:
+                continue
+            decl = mem[base[2]]
+            flows = {x[0] for x in decl}
+            shape = decl[0][1]
+            # interface-typed members are the business of the port-orientation rules
+            if idx.resolve_class(shape[1] if shape[0] == 'call' else shape, cls.module, cls) is not None:
+                continue
+            seen.add(base[2])
+            n += 1
+            rep.check(flows == {"Out"}, rule, f.site, f"{cls.qual}.elaborate drives its own member {base[2]}",
+                      f"`{base[2]}` is declared {'/'.join(sorted(flows))}(...) at line {decl[0][3]} but the component drives it (line {d.lineno}): "
+                      "a member the component drives is an output; declared as an input it has two drivers as soon as the component is the "
+                      "top-level design (DriverConflict, an internal error) and connect() wires it the wrong way round", line=d.lineno)
+    rep.count("plain_member_drivers", n)
+    return n
 
 
 def connects(rep, idx, P):
